@@ -12,7 +12,7 @@
     C11_bjoin_keys_partial / _counterexample                BroadcastJoin writes keys under ORIGINAL numbers (finding)
     C11_partitions_blockwise(_rule), _counterexample        Partitions through Blockwise with broadcast operands
     C11_head(_error/_no_spurious_error), C11_tail           lowered graphs
-    C11_head_push(_rule/_partial/_counterexample), C11_head_nested, C11_tail_push_partial(_counterexample)
+    C11_head_push(_rule/_operands), C11_head_nested, C11_tail_push(_rule/_operands)      (full since D64)
     C11_sorted_head(_any_sort/_tree)                        NFirst
 -/
 import DxModel.Lemmas.Partitions
@@ -284,12 +284,19 @@ example : run Head.I0 (tailTask 3 2) (Head.inputs (fun i => [⟨i, 0, 0⟩, ⟨i
 
 /-! ### 7. push-down rules -/
 
-/-- `Head._simplify_down`: exactly the `Expr` operands the elementwise frame does not broadcast are wrapped,
-    each with the head's own `n` and its `npartitions` OPERAND `k` (D2, D3). -/
-theorem C11_head_push_rule (selfNdim : Nat) (ops : List Operand) (n : Nat) (k : Int) (i : Nat) (hi : i < ops.length) :
-    (headPush selfNdim ops n k)[i]? =
-      some (if ops[i].isExpr && !broadcastDep selfNdim false ops[i] then some (n, k) else none) := by
-  simp [headPush, hi]
+/-- `Head._simplify_down` (D2, D3, D64): no rewrite when the frame has an ambiguous operand; otherwise exactly the
+    `Expr` operands the elementwise frame does not broadcast are wrapped, each with the head's own `n` and its
+    `npartitions` OPERAND `k`. -/
+theorem C11_head_push_rule (selfNdim selfNp : Nat) (ops : List Operand) (n : Nat) (k : Int) :
+    (ambiguous selfNdim selfNp ops = true → headPush selfNdim selfNp ops n k = none) ∧
+    (ambiguous selfNdim selfNp ops = false → ∀ i (hi : i < ops.length), ∃ r, headPush selfNdim selfNp ops n k = some r ∧
+      r[i]? = some (if ops[i].isExpr && !broadcastDep selfNdim false ops[i] then some (n, k) else none)) := by
+  constructor
+  · intro h; simp [headPush, h]
+  · intro h i hi
+    refine ⟨ops.map (fun o => if o.isExpr && !broadcastDep selfNdim false o then some (n, k) else none), ?_, ?_⟩
+    · simp [headPush, h]
+    · simp [hi]
 
 /-- **Semantic core**: for a row-local operation `G` (additive over co-partitioned pieces, commuting with
     common prefixes) applying it to the heads of ALL its row-aligned operands gives the head of its result:
@@ -304,28 +311,89 @@ example : Additive (fun xs => List.zipWith (fun (r s : Row) => (⟨r.idx, 0, r.p
     TakeCommutes (fun xs => List.zipWith (fun (r s : Row) => (⟨r.idx, 0, r.pay + s.pay⟩ : Row)) (xs 0) (xs 1)) :=
   ⟨additive_zipWith _, takeCommutes_zipWith _⟩
 
-/-
-  FULL STATEMENT linking rule and semantics (false for the code as it is): "every row-aligned operand of the
-  elementwise frame is wrapped".  The rule decides by `_broadcast_dep` (`npartitions == 1 and ndim < self.ndim`),
-  which also holds for a row-aligned SERIES operand of a single-partition FRAME.
--/
-/-- proven: when every operand the frame "broadcasts" is a scalar (`ndim = 0`, not row-aligned), the wrapped
-    operands are exactly the row-aligned ones (`ndim ≥ 1` Exprs) — the hypothesis of `C11_head_push`. -/
-theorem C11_head_push_partial (selfNdim : Nat) (ops : List Operand) (n : Nat) (k : Int)
-    (hsc : ∀ o ∈ ops, o.isExpr = true → broadcastDep selfNdim false o = true → o.ndim = 0)
-    (i : Nat) (hi : i < ops.length) (hrow : ops[i].isExpr = true ∧ 1 ≤ ops[i].ndim) :
-    (headPush selfNdim ops n k)[i]? = some (some (n, k)) := by
-  rw [C11_head_push_rule selfNdim ops n k i hi]
-  have hb : broadcastDep selfNdim false ops[i] = false := by
-    cases hbd : broadcastDep selfNdim false ops[i] with
-    | false => rfl
-    | true => have := hsc _ (List.getElem_mem hi) hrow.1 hbd; omega
-  simp [hrow.1, hb]
+/-- what is known about the operands of an elementwise node with `selfNp` partitions: it has at least one
+    dimension; every `Expr` operand is partitioned like the node or is one the node broadcasts
+    (`Blockwise._divisions` asserts this); scalars have one partition -/
+structure OperandsWF (selfNdim selfNp : Nat) (ops : List Operand) : Prop where
+  self : 1 ≤ selfNdim
+  aligned : ∀ o ∈ ops, o.isExpr = true → o.np = selfNp ∨ broadcastDep selfNdim false o = true
+  scalar : ∀ o ∈ ops, o.isExpr = true → o.ndim = 0 → o.np = 1
 
-/-- (finding) `df1.mul(df1.a, axis=0).head(3)` on a single-partition frame: the series operand is row-aligned
-    but is not wrapped — the operation is applied to 3 rows and the whole series. -/
-theorem C11_head_push_counterexample :
-    headPush 2 [⟨true, 1, 2⟩, ⟨true, 1, 1⟩] 3 1 = [some (3, 1), none] := by decide
+/-- a row-aligned operand: an `Expr` with rows (`ndim ≥ 1`) partitioned like the node -/
+def rowAligned (selfNp : Nat) (o : Operand) : Bool := o.isExpr && o.np == selfNp && decide (1 ≤ o.ndim)
+
+theorem wrapped_iff_rowAligned (selfNdim selfNp : Nat) (ops : List Operand) (hwf : OperandsWF selfNdim selfNp ops)
+    (hamb : ambiguous selfNdim selfNp ops = false) (o : Operand) (ho : o ∈ ops) :
+    (o.isExpr && !broadcastDep selfNdim false o) = rowAligned selfNp o := by
+  unfold rowAligned
+  cases hE : o.isExpr with
+  | false => simp
+  | true =>
+    simp only [Bool.true_and]
+    cases hb : broadcastDep selfNdim false o with
+    | true =>
+      -- a broadcast operand partitioned like the node with rows would make the node ambiguous
+      simp only [Bool.not_true]
+      symm
+      rw [Bool.and_eq_false_iff]
+      by_cases hnp : o.np = selfNp
+      · right
+        simp only [decide_eq_false_iff_not, Nat.not_le]
+        have hb' := hb
+        simp only [broadcastDep, Bool.false_or, Bool.and_eq_true, beq_iff_eq, decide_eq_true_eq] at hb'
+        cases hnd : o.ndim with
+        | zero => omega
+        | succ m =>
+          exfalso
+          have : ambiguous selfNdim selfNp ops = true := by
+            simp only [ambiguous, Bool.and_eq_true, beq_iff_eq, List.any_eq_true, decide_eq_true_eq]
+            exact ⟨by omega, o, ho, ⟨⟨hE, by omega⟩, hb'.2⟩⟩
+          rw [this] at hamb; cases hamb
+      · left; simpa using hnp
+    | false =>
+      simp only [Bool.not_false]
+      symm
+      rw [Bool.and_eq_true]
+      have hnp : o.np = selfNp := by
+        rcases hwf.aligned o ho hE with h | h
+        · exact h
+        · rw [h] at hb; cases hb
+      refine ⟨by simpa using hnp, ?_⟩
+      simp only [decide_eq_true_eq]
+      cases hnd : o.ndim with
+      | succ m => omega
+      | zero =>
+        exfalso
+        have h1 := hwf.scalar o ho hE hnd
+        have hs := hwf.self
+        have : broadcastDep selfNdim false o = true := by
+          simp only [broadcastDep, Bool.false_or, Bool.and_eq_true, beq_iff_eq, decide_eq_true_eq]
+          exact ⟨h1, by omega⟩
+        rw [this] at hb; cases hb
+
+/-- **Head push-down, full statement** (holds since D64): whenever the rule rewrites, the operands it wraps in
+    `Head(·, n, k)` are EXACTLY the row-aligned operands — the hypothesis of `C11_head_push`. -/
+theorem C11_head_push_operands (selfNdim selfNp : Nat) (ops : List Operand) (n : Nat) (k : Int)
+    (hwf : OperandsWF selfNdim selfNp ops) (r : List (Option (Nat × Int)))
+    (h : headPush selfNdim selfNp ops n k = some r) (i : Nat) (hi : i < ops.length) :
+    r[i]? = some (if rowAligned selfNp ops[i] then some (n, k) else none) := by
+  unfold headPush at h
+  cases hamb : ambiguous selfNdim selfNp ops with
+  | true => simp [hamb] at h
+  | false =>
+    simp only [hamb, Bool.false_eq_true, if_false, Option.some.injEq] at h
+    subst h
+    simp only [List.getElem?_map, List.getElem?_eq_getElem hi, Option.map_some]
+    rw [wrapped_iff_rowAligned selfNdim selfNp ops hwf hamb ops[i] (List.getElem_mem hi)]
+
+-- a frame with 4 partitions, a co-partitioned series, a scalar reduction, a literal: series wrapped, scalar not
+example : headPush 2 4 [⟨true, 4, 2⟩, ⟨true, 4, 1⟩, ⟨true, 1, 0⟩, ⟨false, 0, 0⟩] 7 2 =
+    some [some (7, 2), some (7, 2), none, none] := by decide
+-- the single-partition frame with a series operand (`df1.mul(df1.a, axis=0).head(3)`): not rewritten any more
+example : headPush 2 1 [⟨true, 1, 2⟩, ⟨true, 1, 1⟩] 3 1 = none ∧ tailPush 2 1 [⟨true, 1, 2⟩, ⟨true, 1, 1⟩] 3 = none := by decide
+example : OperandsWF 2 4 [⟨true, 4, 2⟩, ⟨true, 4, 1⟩, ⟨true, 1, 0⟩, ⟨false, 0, 0⟩] := by
+  refine ⟨by decide, ?_, ?_⟩ <;> intro o ho <;> simp only [List.mem_cons, List.not_mem_nil, or_false] at ho <;>
+    rcases ho with rfl | rfl | rfl | rfl <;> decide
 
 /-- nested heads keep the INNER head's `npartitions` (D3b): `take m (take n (first k)) = take (min m n) (first k)` -/
 theorem C11_head_nested (nOuter nInner : Nat) (kOuter kInner : Int) (l : List Row) :
@@ -333,26 +401,41 @@ theorem C11_head_nested (nOuter nInner : Nat) (kOuter kInner : Int) (l : List Ro
     (l.take nInner).take nOuter = l.take (min nOuter nInner) :=
   ⟨rfl, List.take_take ..⟩
 
-/-- `Tail._simplify_down` wraps EVERY `Expr` operand. -/
-theorem C11_tail_push_rule (selfNdim : Nat) (ops : List Operand) (n : Nat) (i : Nat) (hi : i < ops.length) :
-    (tailPush selfNdim ops n)[i]? = some (if ops[i].isExpr then some n else none) := by
-  simp [tailPush, hi]
+/-- `Tail._simplify_down` (D64): the same guard and the same operands as `Head`. -/
+theorem C11_tail_push_rule (selfNdim selfNp : Nat) (ops : List Operand) (n : Nat) (k : Int) :
+    (tailPush selfNdim selfNp ops n).map (fun r => r.map (fun o => o.map (fun m => (m, k)))) =
+      headPush selfNdim selfNp ops n k := by
+  unfold tailPush headPush
+  split
+  · rfl
+  · simp only [Option.map_some, List.map_map]
+    congr 1
+    apply List.map_congr_left
+    intro o _
+    simp only [Function.comp]
+    split <;> rfl
 
-/-
-  FULL STATEMENT (false for the code as it is): "exactly the row-aligned operands are wrapped in Tail".
--/
-/-- proven: sound when the frame broadcasts none of its `Expr` operands (then all of them are row-aligned and
-    `tail_push_sem` applies) -/
-theorem C11_tail_push_partial (G : (Nat → List Row) → List Row) (hL : LastCommutes G)
+/-- **Tail push-down, full statement** (holds since D64): the wrapped operands are exactly the row-aligned ones … -/
+theorem C11_tail_push_operands (selfNdim selfNp : Nat) (ops : List Operand) (n : Nat)
+    (hwf : OperandsWF selfNdim selfNp ops) (r : List (Option Nat))
+    (h : tailPush selfNdim selfNp ops n = some r) (i : Nat) (hi : i < ops.length) :
+    r[i]? = some (if rowAligned selfNp ops[i] then some n else none) := by
+  unfold tailPush at h
+  cases hamb : ambiguous selfNdim selfNp ops with
+  | true => simp [hamb] at h
+  | false =>
+    simp only [hamb, Bool.false_eq_true, if_false, Option.some.injEq] at h
+    subst h
+    simp only [List.getElem?_map, List.getElem?_eq_getElem hi, Option.map_some]
+    rw [wrapped_iff_rowAligned selfNdim selfNp ops hwf hamb ops[i] (List.getElem_mem hi)]
+
+/-- … and applying a row-local operation to the tails of all row-aligned operands gives the tail of its result. -/
+theorem C11_tail_push (G : (Nat → List Row) → List Row) (hL : LastCommutes G)
     (rows : Nat → Nat → List Row) (hco : ∀ i, CoLen (fun d => rows d i)) (n last : Nat) :
     G (fun d => lastN n (rows d last)) = lastN n (G (fun d => rows d last)) :=
   tail_push_sem G hL rows hco n last
 
-/-- (finding) `(s + s.sum()).tail()`: the scalar reduction is wrapped in `Tail` as well (`M.tail` of a
-    scalar raises) — the analogue of D2, not repaired for Tail. -/
-theorem C11_tail_push_counterexample :
-    tailPush 1 [⟨true, 4, 1⟩, ⟨true, 1, 0⟩] 5 = [some 5, some 5] ∧
-    headPush 1 [⟨true, 4, 1⟩, ⟨true, 1, 0⟩] 5 1 = [some (5, 1), none] := by decide
+example : tailPush 1 4 [⟨true, 4, 1⟩, ⟨true, 1, 0⟩] 5 = some [some 5, none] := by decide
 
 /-! ### 8. head of a sorted frame: `NFirst` -/
 
